@@ -183,6 +183,12 @@ func (c *Cluster) Handler(ctx context.Context, request []byte, next core.NextIOH
 		retried := clientContext.Items().GetInt("retried")
 		if idempotent && (retried < retry) {
 			interval := c.OnRetry(ctx)
+			if clientContext.Items().GetInt("retried") == retried {
+				// the OnRetry of a user's Config need not know about this bookkeeping (the
+				// built-in ones advance the counter themselves): without it the retry
+				// budget was never used up and a server that stays down was retried for ever
+				clientContext.Items().Set("retried", retried+1)
+			}
 			if interval > 0 {
 				time.Sleep(interval)
 			}
